@@ -358,6 +358,28 @@ func (p *Program) VerifyFunction(id string) (res *FuncResult) {
 			}
 		}
 	}
+	// a mutex locked by this function is released on every path to a return (no contract here keeps a lock across
+	// a return; a leaked lock blocks every later handshake or refresh)
+	if e.lockChecks && !(fc != nil && hasNote(fc, "returns_holding_lock")) {
+		for k, x := range exits {
+			var aks []string
+			for a := range x.st.acquired {
+				aks = append(aks, a)
+			}
+			sort.Strings(aks)
+			for _, a := range aks {
+				m := x.st.acquired[a]
+				if p := x.instr.Pos(); p.IsValid() {
+					e.curPos = p
+				}
+				when := x.st.acqWhen[a]
+				if when.S == "" {
+					when = True
+				}
+				e.oblige("lock.release", fmt.Sprintf("lock.leak@return%d", k+1), "a mutex locked by this function is still held when it returns", And(x.reach, when), Eq(Select(e.heldArr(x.st), m, SInt), IntLit(0)), nil)
+			}
+		}
+	}
 	// vacuity guard: every return that the symbolic execution reaches must be reachable in the logic too
 	for k, x := range exits {
 		if p.Contracts.Dead[fmt.Sprintf("%s return%d", id, k+1)] {
@@ -1086,3 +1108,12 @@ func tmpOutDir() string {
 
 var _ = token.NoPos
 
+
+func hasNote(fc *FuncContract, n string) bool {
+	for _, x := range fc.Notes {
+		if strings.TrimSpace(x) == n {
+			return true
+		}
+	}
+	return false
+}
